@@ -273,7 +273,7 @@ def _drain(gen_, limit=None):
     return acc
 
 
-def shared_options_cases(ctx):
+def shared_options_cases(ctx, only=None, label="C12"):
     out = []
     r = ctx.rng
     import rdflib as _rdflib
@@ -285,6 +285,8 @@ def shared_options_cases(ctx):
         return d
 
     for it in range(ctx.n(25, 300)):
+        if only and it >= ctx.n(25, 300) // 2:
+            break
         # ---- (a) generic streams sharing one SerializerOptions object
         cfg, stmts = workload(r, it)
         cfg.flow = None
@@ -293,8 +295,48 @@ def shared_options_cases(ctx):
         if alone.startswith(b"RAISED"):
             continue
         opts = core.make_options(cfg)
-        hist = r.choice(["finished", "abandoned", "failed", "interleaved"])
+        hist = only or r.choice(["finished", "abandoned", "failed", "interleaved", "other-class", "other-class"])
         other = stmts[: max(1, len(stmts) // 2)]
+        if hist == "other-class":
+            # the earlier stream is of another physical family (a triples stream, then a quads / graphs stream
+            # over the same options object, or the other way round); whatever becomes of it -- it may even be
+            # refused when the options name a logical type of the other family -- the later stream writes what
+            # it writes alone, and the caller's options object still says what the caller put there
+            import copy as _copy
+            import dataclasses as _dc
+
+            if r.random() < 0.7:
+                # the logical type left to the stream class (each family resolves it to its own default)
+                cfg.logical = 0
+                alone = run_alone(cfg, stmts)
+                opts = core.make_options(cfg)
+            cfg1 = _copy.copy(cfg)
+            cfg1.cls = r.choice([c for c in "TQG" if c != cfg.cls])
+            if (cfg1.cls == "T") != (cfg.cls == "T"):
+                conv = [gs.Triple(*list(x)[:3]) for x in other] if cfg1.cls == "T" else [gs.Quad(*list(x)[:3], gs.DefaultGraph) for x in other]
+            else:
+                conv = other
+            before = _dc.asdict(opts) if _dc.is_dataclass(opts) else None
+            try:
+                _drain(gser.stream_frames(_stream_with(cfg1, opts), (x for x in conv)))
+            except Exception:  # noqa: BLE001
+                pass
+            after = _dc.asdict(opts) if _dc.is_dataclass(opts) else None
+            try:
+                got = fam_encode.delimited(_drain(gser.stream_frames(_stream_with(cfg, opts), (x for x in stmts))))
+            except Exception as e:  # noqa: BLE001
+                got = b"RAISED " + type(e).__name__.encode()
+            ctx.report.evaluations += 1
+            ctx.report.nontrivial.add(("shared-options", it, hist))
+            ctx.report.count(label + "/shared-options/" + hist + f"/{cfg1.cls}-then-{cfg.cls}")
+            if before != after:
+                ch = sorted(k for k in (before or {}) if before[k] != after[k])
+                out.append(viol("shared-options-rewritten", f"building and running a {cfg1.cls} stream rewrote the caller's SerializerOptions ({', '.join(ch)})",
+                                {"cfg": cfg.as_json(), "stmts": [core_stmt_tok(x) for x in stmts], "history": hist, "first_class": cfg1.cls}))
+            elif got != alone:
+                out.append(viol("shared-options-" + hist, f"a {cfg.cls} stream built from an options object that an earlier {cfg1.cls} stream also used writes {len(got)} bytes, alone it writes {len(alone)}",
+                                {"cfg": cfg.as_json(), "stmts": [core_stmt_tok(x) for x in stmts], "history": hist, "first_class": cfg1.cls}))
+            continue
         if hist == "interleaved":
             s1, s2 = _stream_with(cfg, opts), _stream_with(cfg, opts)
             g1, g2 = gser.stream_frames(s1, (x for x in stmts)), gser.stream_frames(s2, (x for x in other))
@@ -412,6 +454,16 @@ def c12(ctx):
     for wi in range(ctx.n(40, 600)):
         k = r.randint(2, 4)
         wls = [workload(r, i) for i in range(k)]
+        # history in this process: the same statements written under other table sizes first (prefix table
+        # off <-> on, roomy tables) -- whatever a stream remembers about a term must not outlive the stream
+        import copy as _copy
+
+        for c, s in wls:
+            twin = _copy.copy(c)
+            twin.maxp = 0 if c.maxp else 150
+            twin.maxn, twin.maxd = 4000, 32
+            run_alone(twin, s)
+        ctx.report.count("C12/history: same statements under other table sizes first")
         alone = [run_alone(c, s) for c, s in wls]
         # model bytes
         for (c, s), a in zip(wls, alone):
@@ -568,6 +620,8 @@ def c13(ctx):
         if r.random() < 0.3:
             k = r.choice(["M", "B", "FT", "FQ", "G", "D"])
             cfg.flow = (k, r.choice([0, logical]), 3)
+        # a protocol version the caller asks for explicitly does not change what is declared
+        cfg.ver = r.choice([None, None, 1, 2])
         ar = 3 if cls == "T" else 4
         stmts = [gs.Triple(gs.IRI("http://a/s"), gs.IRI("http://a/p"), gs.Literal("x"))] if ar == 3 else [gs.Quad(gs.IRI("http://a/s"), gs.IRI("http://a/p"), gs.Literal("x"), gs.DefaultGraph)]
         ctx.report.evaluations += 1
@@ -622,6 +676,9 @@ def c13(ctx):
             if pv:
                 out.append({"family": "OP", "what": "header", "cfg": cfg.as_json(), "bytes": hx(impl["bytes"]), "corresponds": True, "impl": "", "model": "",
                             "property_violation": {"what": pv}, "signature": {}})
+    # (a') the options object the caller holds: one object used for streams of different physical families
+    # still says what the caller put there, and each stream's header is the one it would write alone
+    out.extend(shared_options_cases(ctx, only="other-class", label="C13"))
     # (b) all pairs
     from pyjelly.options import StreamTypes
 
